@@ -154,6 +154,13 @@ func getOrCreateAndAppendField(c *[]CollectedField, name, alias string, objectDe
 					return &(*c)[i]
 				}
 			}
+			// An abstract parent type (interface or union) need not be related to the other
+			// parent type by an "implements" edge for one object type to belong to both
+			// (two unrelated interfaces of the same object, a union and one of its members):
+			// the selections share a response key, so they are the same field of that object.
+			if isAbstractDefinition(cf.ObjectDefinition) || isAbstractDefinition(objectDefinition) {
+				return &(*c)[i]
+			}
 		}
 	}
 
@@ -161,6 +168,10 @@ func getOrCreateAndAppendField(c *[]CollectedField, name, alias string, objectDe
 
 	*c = append(*c, f)
 	return &(*c)[len(*c)-1]
+}
+
+func isAbstractDefinition(def *ast.Definition) bool {
+	return def.Kind == ast.Interface || def.Kind == ast.Union
 }
 
 func shouldIncludeNode(directives ast.DirectiveList, variables map[string]any) bool {
